@@ -266,6 +266,14 @@ func createUniqueJobs(left, right IndividualNodes, options *IndividualNodesCompa
 			// identifier. All we can do in this case is to pick the first
 			// one.
 			if len(bs) > 0 {
+				// The same can happen on this side: when several individuals
+				// here share the identifier only the first one to claim the
+				// other individual can be matched with it.
+				_, claimed := options.sentB.LoadOrStore(bs[0].Pointer(), nil)
+				if claimed {
+					continue
+				}
+
 				options.adjustTotal(totals)
 				ss := a.SurroundingSimilarity(bs[0], options.SimilarityOptions, true)
 
